@@ -257,6 +257,13 @@ def C16(ck):
     ck.assumptions = TRUST + ["register snapshot / restore hook (verif_hooks.go) to replay many histories in one process"]
     _registry_models(ck)
     _reg_hist(ck, 160 if ck.tier == "quick" else 3000)
+    # discovery of the profile field over a family of claims types (what registration relies on), against PsaCodec!ProfileTag
+    dom = vlib.gen_export("Gen_Claims", "Gen_Claims.cfg", "domains")
+    try:
+        ck.run_and_judge(["codec-shapes", "-seed", ck.seed, "-tier", "quick", "-chunk", 5000, "-in", dom, "-out", ck.path("sh")], "Trace_Codec",
+                         par=10, xmx="3g")
+    finally:
+        _rm(dom)
 
 
 def C07(ck):
@@ -461,6 +468,7 @@ def C15(ck):
                "the reader machine; non-trivial = every shape instance")
     ck.assumptions = TRUST + ["the harness's reflection-based description of its own struct types"]
     ck.add_model(vlib.mc("MC_Codec", "MC_Codec.cfg"))
+    ck.add_model(vlib.mc("MC_JsonKeys", "MC_JsonKeys.cfg"))
     dom = vlib.gen_export("Gen_Claims", "Gen_Claims.cfg", "domains")
     try:
         ck.run_and_judge(["codec-shapes", "-seed", ck.seed, "-tier", ck.tier, "-chunk", 5000, "-in", dom, "-out", ck.path("sh")], "Trace_Codec",
